@@ -284,7 +284,9 @@ def _batch_loop_spec(ctx, st):
         L = fr.locals
         out = [('total-nonneg', L['totalSize'] >= 0)]
         if is_sym(k):
-            out.append(('index-is-last-visited', Implies(k >= 1, Eq(L['i'], k - 1))))
+            from pyvc.loops import UNINIT
+            iv = L.get('i', UNINIT)
+            out.append(('index-is-last-visited', Implies(k >= 1, Eq(iv, k - 1) if iv is not UNINIT and iv is not None else False)))
             out.append(('limit-not-reached-before', Implies(k >= 1, L['totalSize'] < L['maxSizeBytes'])))
             out.append(('first-entry-counted', Implies(k >= 1, L['totalSize'] >= st['first_len'])))
         return out
